@@ -114,6 +114,25 @@ inline Profile make_profile(const std::string& prop, const std::string& tier) {
         p.w_bulk_put = 0;
         p.w_bulk_remove = 0;
         p.max_ops = 120;
+    } else if (prop == "C11" || prop == "C16") {
+        // allocation-balance / cycle programs: every kind of operation that allocates, retires or fails after allocating
+        p.judge_point = true;
+        p.multi_storage = true;
+        p.varied_values = true;
+        p.inline_values = true;
+        p.w_put = 6;
+        p.w_put_unique = 2;
+        p.w_remove = 4;
+        p.w_get = 1;
+        p.w_scan = 1;
+        p.w_iscan = 2;
+        p.w_ddl = 3;
+        p.w_bulk_put = 2;
+        p.w_bulk_remove = 2;
+        p.w_reenter = 1;
+        p.w_full = 0;
+        p.max_ops = 120;
+        p.bulk_max = 200;
     } else if (prop == "C20") {
         p.judge_mem = true;
         p.varied_values = true;
@@ -167,6 +186,7 @@ public:
     // ---- program log -------------------------------------------------------------------------
     std::vector<std::string> log;
     bool trace{false};
+    bool leave_session_open{false}; // C11/C16: the program ends with its session still open
     void note(const std::string& s) {
         if (trace) { std::fprintf(stderr, "TRACE %s\n", s.c_str()); }
         if (log.size() < 4000) { log.push_back(s); }
@@ -1654,7 +1674,7 @@ public:
                 if (w.n_layers >= 2) { classes.insert("layers"); }
             }
         }
-        end_session();
+        if (!leave_session_open) { end_session(); }
     }
 
 private:
